@@ -30,6 +30,9 @@ QUICK_SHARDS = 8
 
 ebb_calc = sut.load("ebb_calc")
 ebb_motion = sut.load("ebb_motion")
+OPTION_PROBES = [(ebb_calc.calculate_lm, ["steps", "rate", "accel", "accum"], [5, 268435456, 0]),
+                 (ebb_motion.moveTimeLM, ["rate", "steps", "accel"], [268435456, 5, 0])]
+
 
 
 def body(ctx, case):
